@@ -249,7 +249,9 @@ def generate():
             tname = tr["path"].split("::")[-1]
             forty = im["for"]
             # an impl of the crate whose trait is parametrised by the key: AsMut<ThreadKey>, Borrow<ThreadKey>, From<..> -> ..
-            if v.get("crate_id") == 0 and mentions(tr.get("args"), "ThreadKey"):
+            # only the traits whose methods hand out `&mut ThreadKey` or a `ThreadKey` by value: AsRef / Borrow give `&ThreadKey`
+            # (not Keyable) and From<ThreadKey> consumes a key, so impls of those are harmless and are not listed
+            if v.get("crate_id") == 0 and tname in ("AsMut", "BorrowMut", "Into") and mentions(tr.get("args"), "ThreadKey"):
                 head = forty.get("resolved_path", {}).get("path", "?").split("::")[-1] if isinstance(forty, dict) else "?"
                 key_trait_impls.append((head, tname))
             if tname == "Keyable":
@@ -434,7 +436,7 @@ def render(rules, timpls, fns, key_public_field, nonkey_public_fields, keyable_i
     o.append(";\n".join(f'  mkrule "{name}" M{tr} {cb(neg)} {cb(syn)} [{"; ".join(f"{k} M{b}" for k, b in bs)}]'
                          for name, tr, neg, syn, bs in sorted(holder_rules)))
     o.append("].\n")
-    o.append("(* impls of the crate whose trait is parametrised by ThreadKey (AsMut<ThreadKey>, Borrow<ThreadKey>, ..): (type, trait) *)")
+    o.append("(* impls of the crate of AsMut<ThreadKey>, BorrowMut<ThreadKey>, Into<ThreadKey>: (type, trait) *)")
     o.append("Definition key_trait_impls : list (string * string) := [" + "; ".join(f'("{a}", "{b}")' for a, b in key_trait_impls) + "].")
     o.append("Definition trait_impls : list (string * string) := [")
     o.append(";\n".join(f'  ("{a}", "{b}")' for a, b in sorted(set(timpls))))
